@@ -247,6 +247,14 @@ theorem control_flow : ∀ p ∈ paths, ∀ size : Int,
       · simp [h2]
       · simp [h1, h2]; omega
 
+/-- **topology_guard** — `ScanPrimitivesParallelWithPoolSize` lets a topology reach the worker goroutines iff the workers'
+    switch — and the sequential `ScanPrimitives` — handle it: an unsupported topology (quad, line, line loop) panics in the caller's
+    goroutine, like the sequential scan, never inside a worker (where it would kill the process).  False of the tree before
+    /repo 8b216e3 (no guard: `guardedTopologies = []`). -/
+theorem topology_guard :
+    ScanPrimitivesParallelWithPoolSize.guardedTopologies.Perm ScanPrimitivesParallelWithPoolSize.topologies ∧
+    ScanPrimitivesParallelWithPoolSize.guardedTopologies.Perm ScanPrimitives.topologies := by decide
+
 /-- the worker loop, when entered, starts `size ≥ 2` workers (the loop count of every spec is the pool size) -/
 theorem workers_count : ∀ p ∈ specs, ∀ n size : Int, p.2.workers n size = size := by
   intro p hp n size
